@@ -771,7 +771,6 @@ spiftool_version_compare(spif_charptr_t v1, spif_charptr_t v2)
             }
         } else if (isdigit(*v1) && isdigit(*v2)) {
             spif_charptr_t p1 = buff1, p2 = buff2;
-            spif_int32_t ival1, ival2;
             spif_cmp_t c;
 
             /* Compare numbers.  First, copy each number into buffers. */
@@ -779,13 +778,17 @@ spiftool_version_compare(spif_charptr_t v1, spif_charptr_t v2)
             for (; *v2 && isdigit(*v2) && (p2 < buff2 + sizeof(buff2) - 1); v2++, p2++) *p2 = *v2;
             *p1 = *p2 = 0;
 
-            /* Convert the strings into actual integers. */
-            ival1 = (spif_int32_t) strtol((char *) buff1, (char **) NULL, 10);
-            ival2 = (spif_int32_t) strtol((char *) buff2, (char **) NULL, 10);
-            D_CONF(("     -> Comparing as integers %d vs. %d\n", (int) ival1, (int) ival2));
-
-            /* Compare the integers and return if not equal. */
-            c = SPIF_CMP_FROM_INT(ival1 - ival2);
+            /* Compare the numbers:  without leading zeros the longer one is bigger, and
+               equally long ones compare like text.  (Converting with strtol() into a
+               32-bit integer got everything beyond 2^31 wrong.) */
+            for (p1 = buff1; *p1 == '0'; p1++);
+            for (p2 = buff2; *p2 == '0'; p2++);
+            D_CONF(("     -> Comparing as integers %s vs. %s\n", p1, p2));
+            if (strlen((char *) p1) != strlen((char *) p2)) {
+                c = ((strlen((char *) p1) < strlen((char *) p2)) ? (SPIF_CMP_LESS) : (SPIF_CMP_GREATER));
+            } else {
+                c = SPIF_CMP_FROM_INT(strcmp((char *) p1, (char *) p2));
+            }
             if (!SPIF_CMP_IS_EQUAL(c)) {
                 D_CONF(("     -> %d\n", (int) c));
                 return c;
